@@ -1844,7 +1844,7 @@ fn try_bitpacking(
                 max
             };
             order_preserving = order_preserving && plan_type.is_order_preserving();
-            let mut adjusted_query_plan = if query_plan.is_nullable() {
+            let adjusted_query_plan = if query_plan.is_nullable() {
                 let fused = planner.fuse_int_nulls(-min + 1, query_plan);
                 if fused.tag != EncodingType::I64 {
                     planner.cast(fused, EncodingType::I64).i64()?
@@ -1859,14 +1859,15 @@ fn try_bitpacking(
                     .constant_expand(0, partition_len, EncodingType::I64)
                     .i64()?;
                 info!("EMITTING NULL CONSTANT EXPAND {:?}", x);
-                x
+                // The expanded constant has the length of the partition: it still has to be filtered.
+                // (Every other plan comes out of compile_expr with the filter already applied.)
+                filter
+                    .apply_filter(planner, x.into())
+                    .i64()
+                    .expect("source type should be i64")
             } else {
                 planner.cast(query_plan, EncodingType::I64).i64()?
             };
-            adjusted_query_plan = filter
-                .apply_filter(planner, adjusted_query_plan.into())
-                .i64()
-                .expect("source type should be i64");
 
             if total_width == 0 {
                 plan = Some(adjusted_query_plan);
